@@ -262,7 +262,7 @@ Section Parsers.
       | (VStr k, v) :: r =>
           let* (s, o) := split_short pre r in
           if String.prefix pre k then Ok ((VStr k, v) :: s, o) else Ok (s, (VStr k, v) :: o)
-      | _ => Err AttributeError                 (* i.startswith on a key that is not a str *)
+      | kv :: r => let* (s, o) := split_short pre r in Ok (s, kv :: o)   (* keys that are not strings are never shorthands *)
       end.
 
     Fixpoint fold_short (shorts : list (pyval * pyval)) (acc : dslc pyval * cond pyval) : res (dslc pyval * cond pyval) :=
@@ -277,6 +277,28 @@ Section Parsers.
       let* acc' := fold_short s acc in Ok (acc', o).
 
     Definition to_carg (c : dslc pyval * cond pyval) : option (carg pyval) := Some (KCond (fst c)).
+
+    (* dict(spec): the caller's mapping is copied; anything else must be a sequence of pairs *)
+    Definition pair_of (v : pyval) : res (pyval * pyval) :=
+      match v with
+      | VList [k; x] | VTuple [k; x] => if py_hashable k then Ok (k, x) else Err TypeError
+      | VDict [(k, _); (x, _)] => Ok (k, x)
+      | VList _ | VTuple _ | VDict _ => Err ValueError
+      | VStr s => match str_chars s with [a; b] => Ok (VStr a, VStr b) | _ => Err ValueError end
+      | _ => Err TypeError
+      end.
+    Fixpoint dict_put (k v : pyval) (d : list (pyval * pyval)) : list (pyval * pyval) :=
+      match d with
+      | [] => [(k, v)]
+      | (k2, v2) :: r => if py_eq k k2 then (k2, v) :: r else (k2, v2) :: dict_put k v r
+      end.
+    Definition dict_of_val (v : pyval) : res (list (pyval * pyval)) :=
+      match v with
+      | VDict d => Ok d
+      | VList l | VTuple l => let* ps := mapM pair_of l in Ok (fold_left (fun d kv => dict_put (fst kv) (snd kv) d) ps [])
+      | VStr s => let* ps := mapM pair_of (map VStr (str_chars s)) in Ok (fold_left (fun d kv => dict_put (fst kv) (snd kv) d) ps [])
+      | _ => Err TypeError
+      end.
 
     (* ContainerValue.from_spec(dict) -> the part term (with its built conditions checked) *)
     Definition part_from_spec (d0 : list (pyval * pyval)) : res (pterm pyval) :=
